@@ -136,7 +136,11 @@ func c28QuotedBody(r *rand.Rand, q byte) string {
 	}
 	for i := 0; i < n; i++ {
 		var piece string
-		switch r.Intn(9) {
+		switch r.Intn(11) {
+		case 9:
+			piece = string(rune(0x80 + r.Intn(0x100))) // Latin-1 / Latin Extended-A (x%02x vs u%06x boundary)
+		case 10:
+			piece = string(rune(r.Intn(0x110000)))
 		case 0, 1:
 			piece = c28Punct[r.Intn(len(c28Punct))]
 		case 2:
@@ -275,8 +279,12 @@ func c28Variant(r *rand.Rand, w1, w2 string, nonterm bool) (name, id string) {
 		return "\"" + w1 + "_" + w2 + "\"", ""
 	case 10:
 		return "'" + w1 + title(w2) + "'", ""
-	case 11: // explicit upper-case ID, used verbatim
-		return c28RandID(r) + "x", up(w1) + "_" + up(w2)
+	case 11: // explicit upper-case ID, used verbatim (a '-' or a lone '_' makes it a non-identifier: filtered unless findings mode)
+		sep := []string{"_", "_", "_", "", "-"}[r.Intn(5)]
+		if r.Intn(12) == 0 {
+			return c28RandID(r) + "x", "_"
+		}
+		return c28RandID(r) + "x", up(w1) + sep + up(w2)
 	case 12: // explicit ID with lower-case letters: goes through Produce(UpperCase)
 		return "y" + c28RandID(r), w1 + "_" + w2
 	default:
@@ -431,6 +439,19 @@ func (c *Ctx) c28Grammar(findings bool) {
 		kind = "err " + strings.SplitN(strings.SplitN(ans, " ", 2)[1], ":", 2)[0]
 	}
 	c.Count("grammar " + kind)
+	if strings.HasPrefix(ans, "err dup:") {
+		// who collides with whom (first error)
+		f := strings.Split(strings.SplitN(ans[4:], ";", 2)[0], ":")
+		isNt := func(h string) string {
+			for _, n := range nparts {
+				if n == h {
+					return "nonterm"
+				}
+			}
+			return "token"
+		}
+		c.Count("first dup: " + isNt(f[1]) + " vs " + isNt(f[2]))
+	}
 	c.Case(line, ans, line)
 	if len(c.Samples) < 8 && c.Dist["grammar "+kind] == 1 {
 		c.Samples = append(c.Samples, strings.ReplaceAll(src.String(), "\n", "\\n")+" => "+ans)
@@ -499,7 +520,7 @@ func c28Compile(src string, toks []c28Tok, nts []string) (ans string, ids []stri
 func c28(c *Ctx) {
 	findings := os.Getenv("VERIF_FINDINGS") != ""
 	c.Rule = "ident: every name goes through ident.Produce in all 4 styles and through the real tm lexer (is it one ID/keyword/quoted_id/scon token?); " +
-		"names = exhaustive one-byte and escaped one-byte quoted names in both quote kinds (covers the charName table), keyword-like words, random ID spellings over biased alphabets " +
+		"names = exhaustive one-byte and escaped one-byte quoted names in both quote kinds (covers the charName table), every single rune U+0080..U+017F quoted, keyword-like words, random ID spellings over biased alphabets " +
 		"(humps, digits, '_', '-'), quoted names built from punctuation/words/escapes/non-ASCII/invalid UTF-8, and a malformed stream (random bytes, unbalanced quotes, '$' names); " +
 		"non-trivial = lexer-admitted name longer than one byte, distinct by (style,name). " +
 		"gram: .tm grammars (1-6 lexemes with optional explicit (ID), 1-5 nonterminals) whose names are variants of shared stems so that IDs collide " +
@@ -516,6 +537,10 @@ func c28(c *Ctx) {
 			c.c28Ident(q+string([]byte{byte(b)})+q, findings, "quoted1")
 			c.c28Ident(q+"\\"+string([]byte{byte(b)})+q, findings, "quoted-esc1")
 		}
+	}
+	for cp := 0x80; cp < 0x180; cp++ {
+		c.c28Ident("'"+string(rune(cp))+"'", findings, "quoted-rune1")
+		c.c28Ident("'A"+string(rune(cp))+"B'", findings, "quoted-rune1")
 	}
 	for _, w := range c28Words {
 		c.c28Ident(w, findings, "word")
@@ -540,7 +565,7 @@ func c28(c *Ctx) {
 			}
 		}
 	}
-	n := c.N(2500, 60000)
+	n := c.N(5000, 300000)
 	for i := 0; i < n; i++ {
 		switch k := c.Rng.Intn(10); {
 		case k < 4:
@@ -552,7 +577,7 @@ func c28(c *Ctx) {
 		}
 	}
 	// 2. whole grammars
-	g := c.N(600, 12000)
+	g := c.N(1500, 60000)
 	for i := 0; i < g; i++ {
 		c.c28Grammar(findings)
 	}
